@@ -110,8 +110,8 @@ def gen_pair_screen(rng, for_interaction):
         t = [conds[a], conds[b]]
         if u < (0.35 if for_interaction else 0.15):
             t[int(rng.integers(2))] = ("", 0.0)
-        elif u < 0.2:
-            t = [("", 0.0), ("", 0.0)]
+        elif u < (0.42 if for_interaction else 0.2):
+            t = [("", 0.0), ("", 0.0)]  # a vehicle well: control in both columns
         is_combo = t[0][0] != "" and t[1][0] != ""
         if singles_only_observed and is_combo:
             # the first round of a screen: only the single-agent plate(s) have been run so far
